@@ -189,7 +189,7 @@ type Option struct {
 }
 
 func (o *Option) Len() uint16 {
-	return uint16(o.Length + 2)
+	return uint16(o.Length) + 2
 }
 
 func (o *Option) MarshalBinary() (data []byte, err error) {
